@@ -11,6 +11,21 @@ from pde import CartesianGrid, CylindricalSymGrid, PolarSymGrid, ScalarField, Sp
 from pde.grids._mesh import GridMesh
 
 
+def subdivide_sweep(limit):
+    """pure integer function with float intermediates: every (num, chunks) pair below the limit (exhaustive, bounded)"""
+    from pde.grids._mesh import _subdivide
+
+    fails = []
+    for num in range(1, limit + 1):
+        for chunks in range(1, num + 1):
+            sizes = [int(x) for x in _subdivide(num, chunks)]
+            if len(sizes) != chunks or sum(sizes) != num or min(sizes) < 1 or max(sizes) - min(sizes) > 1:
+                fails.append({"id": "subdivide_does_not_tile_the_axis", "num": num, "chunks": chunks, "sizes": sizes})
+                if len(fails) >= 3:
+                    return fails
+    return fails
+
+
 def run(payload):
     rng = np.random.default_rng(payload.get("seed", 0))
     thorough = payload.get("thorough", False)
@@ -103,6 +118,9 @@ def run(payload):
                         fail("boundary_conditions_on_subgrid", grid=repr(grid), max_dev=float(np.max(np.abs(got - want))))
                 except Exception as e:
                     fail("to_subgrid_error", grid=repr(grid), error=f"{type(e).__name__}: {e}")
+    sweep = subdivide_sweep(payload.get("subdivide_limit", 120))
+    cases += payload.get("subdivide_limit", 120) * (payload.get("subdivide_limit", 120) + 1) // 2
+    fails = list(fails) + sweep
     return {"ok": True, "cases": cases, "failures": fails}
 
 
